@@ -22,6 +22,8 @@ pub mod syntax_kind;
 pub(crate) use token_set::TokenSet;
 
 #[cfg(feature = "oq3_verif")]
+pub use parser::verif::take_process_steps as verif_take_process_steps;
+#[cfg(feature = "oq3_verif")]
 pub use parser::verif::take_work as verif_take_work;
 
 pub use crate::{
